@@ -133,6 +133,8 @@ type Sim struct {
 	lastRan *Task
 
 	locks  map[uintptr]*lockState
+	onces  map[uintptr]*onceState
+	wgs    map[uintptr]int
 	closed map[uintptr]interface{}
 	timers []*simCtx // active deadline contexts
 	evq    []*simEvent
@@ -186,6 +188,8 @@ func New(cfg Config) *Sim {
 		cfg:        cfg,
 		back:       make(chan struct{}),
 		locks:      map[uintptr]*lockState{},
+		onces:      map[uintptr]*onceState{},
+		wgs:        map[uintptr]int{},
 		closed:     map[uintptr]interface{}{},
 		siteHits:   map[int]int{},
 		switchAt:   map[[2]int]int{},
